@@ -86,7 +86,7 @@ func runC01(c *core.Ctx) {
 			return true
 		}
 		ft := d.Features(s)
-		cfgs := configsFor(s, ft, false)
+		cfgs := configsFor(s, ft, true) // reflection with registered types also serves abstract dispatch
 		for gi, g0 := range graphs {
 			for _, op := range world.OpNames(d) {
 				for _, vars := range world.VarMaps(d) {
